@@ -13,7 +13,7 @@ agent=[m for m in rows if not m['id'].startswith('R-')]
 rev=[m for m in rows if m['id'].startswith('R-')]
 n=len(agent); miss=sum(1 for m in agent if m.get('first_shot')=='missed'); caught_now=sum(1 for m in agent if m.get('caught_by'))
 out=["<!-- SEEDS:BEGIN -->",
-f"{n} changes written by independent sub-agents are kept (16 waves; each agent saw one property's text and its own scratch worktree, nothing of /verif), plus {len(rev)} reverts of my own fix commits. "
+f"{n} changes written by independent sub-agents are kept (17 waves; each agent saw one property's text and its own scratch worktree, nothing of /verif), plus {len(rev)} reverts of my own fix commits. "
 f"Each kept change was confirmed by me in a scratch worktree: it applies, the tree builds, the whole existing suite passes, its demonstration fails with the change (and passed for the agent without it). "
 f"First shot (the check as it was when the change arrived): {n-miss} of {n} caught, {miss} missed; every miss led to a strengthening of the workload (column in seeded/<id>/meta.json), after which {caught_now} of {n} are caught by the quick tier. "
 "",
